@@ -29,7 +29,7 @@ from processscheduler.task import (
     VariableDurationTask,
 )
 from processscheduler.buffer import ConcurrentBuffer, NonConcurrentBuffer
-from processscheduler.util import sort_duplicates
+from processscheduler.util import sort_with_ties
 
 
 #
@@ -251,8 +251,8 @@ class TasksContiguous(TaskConstraint):
         starts = [t._start for t in self.list_of_tasks]
         ends = [t._end for t in self.list_of_tasks]
         # sort both lists
-        sorted_starts, constraints_start = sort_duplicates(starts)
-        sorted_ends, constraints_end = sort_duplicates(ends)
+        sorted_starts, constraints_start = sort_with_ties(starts)
+        sorted_ends, constraints_end = sort_with_ties(ends)
         for all_constraints in constraints_start + constraints_end:
             self.set_z3_assertions(all_constraints)
         # from now, starts and ends are sorted in asc order
